@@ -19,7 +19,16 @@ def plan(ex, tier, first):
 
 
 def run(tier, seed, ev):
-    return tcommon.generic_run(PROP, tier, seed, ev, plan, [
+    import mirrun
+    import sprop
+    rc1 = tcommon.generic_run(PROP, tier, seed, ev, plan, [
         "scan classification (orphaned/missing/invalid/corrupted sets) is not decided by this check: directory walking "
         "and blake3 verification of real files are outside the solver's reach (see not-claimed clauses in DESIGN.md)"],
         Ns_thorough=(1, 2))
+    with mirrun.mir_executor(PROP + "s") as (ex, scr, mir_s):
+        plans = [(("delete_orphan", "put"), 1, 2), (("delete_orphan", "remove"), 1, 1)]
+        if tier == "thorough":
+            plans += [(("delete_orphan", "put"), 2, 2), (("delete_orphan", "delete_orphan"), 1, 2)]
+        rc2 = sprop.run_s(PROP, tier, seed, ev, ex, plans)
+        ev.bounds["interleavings"] = "orphan clean-up of a symbolic hash racing with a put / remove (same content possible): every interleaving at lock and blob-I/O granularity; key universe 1/2, hash universe 2"
+    return tcommon.best(rc1, rc2)
